@@ -9,7 +9,7 @@ import warnings
 
 import numpy as np
 
-from vlib import scenario, record
+from vlib import ambient, scenario, record
 from iOpt.method.listener import Listener
 
 LEVEL = "exploration"
@@ -18,7 +18,7 @@ RULE = ("(a) ALL 16 subsets of the four base-class callbacks (classes built dyna
         "order; once per Solve with the returned solution), and the trial log and result must equal the listener-free run; (b) the console listener in its 3 modes (also refined by a user subclass) and "
         "(c) the four painters in every documented mode (1-D painters on N=1, section/N-D painters on N=2,3), alone and combined with the console listener, with and "
         "without refinement: same non-interference comparison (painter probes of the objective are separated from trials by a forwarding proxy), and the console "
-        "listener's final block is parsed from captured stdout and compared with the Solution fields. Non-trivial: every case; distinct = (kind, N, subset/mode, batching, seed index).")
+        "listener's final block is parsed from captured stdout and compared with the Solution fields. (d) the repository's shipped example scripts are executed twice, as written and with every listener they attach left out: identical trial logs and results. Non-trivial: every case; distinct = (kind, N, subset/mode, batching, seed index).")
 ASSUMPTIONS = ["DoGlobalIteration(0) is not issued with shipped listeners attached (the statement speaks of the new trials of a call)",
                "matplotlib runs with the Agg backend; figures are closed after each run"]
 CHUNK = 2
@@ -105,6 +105,9 @@ def cases(tier, seed):
                     out.append({"kind": "painter", "N": N, "painter": pk, "kw": kw, "console": False, "b": 0, "seed": seed, "idx": idx,
                                 "refine": False, "coincident": True})
                     idx += 1
+    # the repository's own example scripts (console and painter listeners as their authors attach them), run with and without
+    # their listeners: identical trial logs and results
+    out += [dict(c, idx=idx + n) for n, c in enumerate(ambient.ambient_cases(tier)) if c["ambient"] == "script"]
     return out
 
 
@@ -223,6 +226,8 @@ def check_console(t, viol, obs):
 
 
 def run_case(c):
+    if "ambient" in c:
+        return ambient.compare_with_and_without_listeners(c)
     rng = scenario.rng_for(c["seed"], "C13", c["idx"])
     N = c["N"]
     iters = int(rng.integers(12, 30)) if c["kind"] != "painter" else int(rng.integers(10, 22))
@@ -423,7 +428,7 @@ def run_case(c):
 def finalize(obs, tier, stats):
     for k in ("before_checked", "iter_callbacks_checked", "stop_callbacks_checked", "console_reports_checked", "painter_runs", "painter_probe_calls",
               "figures_written", "refine_runs", "multi_listener_runs", "hostile_grid_boxes", "runs_with_coincident_projected_trials",
-              "listener_class_shape_0", "listener_class_shape_1", "listener_class_shape_2", "listener_class_shape_3", "console_subclass_runs", "attached_directly", "attached_through_proxy"):
+              "listener_class_shape_0", "listener_class_shape_1", "listener_class_shape_2", "listener_class_shape_3", "console_subclass_runs", "attached_directly", "attached_through_proxy", "ambient_solvers_compared", "ambient_with_user_listeners"):
         if not obs.get(k):
             return "%s never observed" % k, {}
     if len(obs.get("painter_kinds", [])) < 19:
